@@ -24,6 +24,9 @@ CLAIMS = {
  "C08": ("Structural/specification clauses only (neither cipher is built by the test suite): ChaCha sigma/tau, the 64 statements of the double round (operands, rotations, column/diagonal index tuples), rounds loop, key/counter/IV word layout for both key sizes, HChaCha/XChaCha wiring, block macro word coverage, sibling agreement of the three block variants incl. counter carry, alignment dispatch; GOST 28147 round/key schedule and composition, f function in both table builds, table expansion formula (abstract evaluation with a synthetic S-box), S-box rows are permutations, aligned/unaligned and encrypt/decrypt I/O agreement; context wipes. Key-stream / cipher-text values are NOT decided.",
          "Trusts clang 14 front end; reference structure from RFC 8439 / RFC 5830.",
          "static analysis: statement-sequence comparison against a generated reference, canonicalised load/store sibling comparison, abstract expression evaluation, post-dominance of wipes"),
+ "C09": ("Structural clauses only: every read of the 16 *_be/*_le entry points through a pointer whose size the caller passed stays inside that size; exporter/importer layout agreement for all encodings (size, prefix, coordinate offsets and lengths, parity bit handed to the root selection, neutral element), rejection of unknown sizes/prefixes, reported size equals bytes written; with validation enabled every accepting importer path passes ec_point_check_as_pub_key (on-curve and order checks) and a failing status cannot reach success; root parity selection in ec_point_restore_y_by_x; point->infinity defined before validation on finite arms; _be/_le sibling agreement. Numerical agreement of key generation / Diffie-Hellman with a reference and DH symmetry are NOT decided.",
+         "Trusts clang 14 front end/CFG; bn_import_*_bin reads exactly its length argument, bn_export_*_bin writes exactly its length argument; unsized output buffers are as large as the header comment demands.",
+         "static analysis: relational abstract interpretation of the byte API, partial evaluation of exporter and importer CFGs over finite argument classes (writer/reader table agreement), must-pass-through on the CFG, sibling comparison"),
  "C10": ("Structural clauses only: the shared countdown field is accessed under its lock after publication (lock-set dataflow), pre-publication accesses cannot follow a send; no dereference of the shared record after the countdown's unlock (the clause 'does not touch the caller's memory afterwards'); the heap record of the completion form is freed/handed over on every path; per-target sent/failed accounting and returned failure count; single completion site guarded by zero that frees after the user callback; one-by-one token order. Once-per-thread / completion-after-all under interleavings is NOT decided.",
          "Trusts clang 14 CFG, pthread mutex semantics, tpt_msg_send returning 0 = ownership transferred.",
          "static analysis: lock-set dataflow, reachability after release point, path enumeration for ownership and accounting"),
